@@ -202,4 +202,88 @@ def mon_C11(run):
     return bad[:1]
 
 
-MONITORS = {"C01": mon_C01, "C02": mon_C02, "C11": mon_C11}
+def mon_C10(run):
+    """timeouts / non-blocking / missing runtime: every result variant has its documented
+    cause, judged from what the scripted environment did"""
+    bad = []
+    rt = run.cfg.get("rt") == "1"
+    prev = {}          # op -> (label, susp) before the current step
+    prev_obs = None
+    deadline_at_acquire = set()
+    expect_label = {}  # op -> label it must be at after the step just taken
+    for row in run.rows:
+        if row is None:
+            continue
+        k, d, i = row["k"], row["obs"], row["op"]
+        op = run.ops[i]
+        a = row["action"].split()
+        if op["kind"] == "get":
+            w, c, r = op["spec"]
+            lbl, susp = d["lbl"], d["susp"] == "1"
+            if a[0] == "step":
+                oc = a[2]
+                pl, ps = prev.get(i, ("get.enter", False))
+                if pl == "get.acquire" and ps and oc == "deadline" and prev_obs is not None:
+                    woken = parse_list(prev_obs["woken"]) or []
+                    if prev_obs["closed"] == "1":
+                        pass
+                    elif str(i) in woken:
+                        if lbl != "get.pop":
+                            bad.append((k, f"get #{i}: a slot was handed to it before the wait deadline passed, but it did not take it (now at {lbl})"))
+                    else:
+                        deadline_at_acquire.add(i)
+                        if lbl != "drop.users":
+                            bad.append((k, f"get #{i}: wait deadline passed without a slot but the call did not time out (now at {lbl})"))
+                if pl == "create" and (oc == "deadline" or (oc == "pending" and c == "z")):
+                    if lbl != "drop.permit":
+                        bad.append((k, f"get #{i}: create timeout did not abort the call (now at {lbl})"))
+                    op["_tc"] = True
+                if pl == "recycle" and (oc == "deadline" or (oc == "pending" and r == "z")):
+                    if lbl != "unready.lock":
+                        bad.append((k, f"get #{i}: recycle timeout did not reject the object (now at {lbl})"))
+            if w == "z" and lbl == "get.acquire" and susp:
+                bad.append((k, f"get #{i} has a zero wait timeout but is waiting for a slot"))
+            if not rt and r != "n" and lbl not in ("get.enter", "done"):
+                bad.append((k, f"get #{i}: recycle timeout without runtime but the call went on to {lbl}"))
+            for e in row["ev"]:
+                name, args = ev_args(e)
+                if name in ("detach", "destroy", "create", "recycle") and not rt and r != "n":
+                    bad.append((k, f"get #{i}: recycle timeout without runtime but {e} happened"))
+                if name == "create" and not rt and c != "n":
+                    bad.append((k, f"get #{i}: create timeout without runtime but Manager::create was called"))
+                if name != "result" or int(args[0]) != i:
+                    continue
+                R = args[1].split(":")[0]
+                if R == "timeout_recycle":
+                    bad.append((k, f"get #{i} returned Timeout(Recycle)"))
+                if R == "no_runtime" and (rt or (r == "n" and w != "f" and c == "n")):
+                    bad.append((k, f"get #{i} returned NoRuntimeSpecified with rt={rt} timeouts={w}{c}{r}"))
+                if R == "timeout_wait":
+                    if w == "n" or (w == "f" and i not in deadline_at_acquire):
+                        bad.append((k, f"get #{i} returned Timeout(Wait) but wait={w} and no deadline passed"))
+                    if w == "z" and prev_obs is not None:
+                        pass
+                if R == "timeout_create" and not (rt and c in ("z", "f") and op.get("_tc")):
+                    bad.append((k, f"get #{i} returned Timeout(Create) without a create timeout firing"))
+                if R == "ok" and not rt and (r != "n" or w == "f"):
+                    bad.append((k, f"get #{i} succeeded although timeouts={w}{c}{r} need a runtime"))
+                if not rt and (r != "n" or w == "f") and R != "no_runtime" and R not in ("cancelled",):
+                    bad.append((k, f"get #{i}: timeouts={w}{c}{r} without runtime must give NoRuntimeSpecified, got {R}"))
+            # zero wait: the acquisition step decides at once, by the state it saw
+            if a[0] == "step" and prev.get(i, ("", False))[0] == "get.acquire" and w == "z" and prev_obs is not None:
+                if prev_obs["closed"] == "1":
+                    want = "drop.users"
+                elif prev_obs["permits"] == "0":
+                    want = "drop.users"
+                else:
+                    want = "get.pop"
+                if lbl != want:
+                    bad.append((k, f"get #{i}: zero-wait acquisition saw permits={prev_obs['permits']} closed={prev_obs['closed']} but went to {lbl}"))
+            prev[i] = (lbl, susp)
+        prev_obs = d
+        if bad:
+            return bad[:1]
+    return bad[:1]
+
+
+MONITORS = {"C10": mon_C10, "C01": mon_C01, "C02": mon_C02, "C11": mon_C11}
